@@ -2,7 +2,7 @@
    run_chain4 is the dispatch loop of HandleMsg4 with an invocation log; the theorems hold for
    arbitrary handler functions.  load_plugins models plugins.LoadPlugins over an arbitrary
    registry (names, optional per-protocol setup functions that may fail or return nil). *)
-From Verif Require Import Base BaseProofs Net Msg4 Chain ChainProofs Server4 Server4Run Server4Proofs Server4Examples.
+From Verif Require Import Base BaseProofs Net Msg4 Chain ChainProofs Server4 Server4Run Server4Proofs Server4Examples Alloc Plugins4 Plugins6 RangePlugin PrefixPlugin FilePlugin Assembly NilStop.
 Open Scope N_scope.
 
 Theorem chain_order :
@@ -82,6 +82,20 @@ Theorem load_plugins_exact :
 Proof. exact (@Server4Proofs.load_plugins_exact). Qed.
 Print Assumptions load_plugins_exact.
 
+
+Theorem builtin4_nil_only_with_stop :
+  forall (now : Z) (i : inst4) (req resp : msg4) (i' : inst4) (stop : bool),
+  inst4_call now i req (Some resp) = (i', Ok (None, stop)) -> stop = true.
+Proof. exact (@NilStop.builtin4_nil_only_with_stop). Qed.
+Print Assumptions builtin4_nil_only_with_stop.
+
+Theorem builtin6_nil_only_with_stop :
+  forall (dec_pds : Msg6.imsg -> list (bytes * list hint))
+  (enc_iapd : bytes * list lease -> bytes) (now : Z) (i : inst6)
+  (req resp : Msg6.pkt6) (i' : inst6) (stop : bool),
+  inst6_call dec_pds enc_iapd now i req (Some resp) = (i', Ok (None, stop)) -> stop = true.
+Proof. exact (@NilStop.builtin6_nil_only_with_stop). Qed.
+Print Assumptions builtin6_nil_only_with_stop.
 
 (* Non-vacuity (proofs/Server4Examples.v): a DISCOVER through the chain [mark; set yiaddr; stop; mark]
    on an unbound listener is answered by a link-level OFFER on the receiving interface, the fourth
